@@ -17,6 +17,7 @@ import (
 //
 //verif:replace encoding/json.Marshal verifMarshalTrace
 //verif:replace io/ioutil.WriteFile verifWriteFileTrace
+//verif:replace os.WriteFile verifWriteFileTrace
 
 func verifMarshalTrace(v interface{}) ([]byte, error) {
 	d := v.(memCacheDisk)
